@@ -809,7 +809,17 @@ def unpack(I, v, n):
         if not I.decide(z3.Length(v.t) == n, 'unpack-arity'):
             raise Raised(VExc(ValueError, [VStr('unpack')]))
         return [seq_at(v, z3.IntVal(i)) for i in range(n)]
-    raise Unsupported('unpack %r' % (v,))
+    if isinstance(v, VAny) and 'k3' in I.ghost:
+        # a dynamically typed value unpacked into n names (K3 render code): it is not iterable or has
+        # the wrong number of items (TypeError / ValueError), or yields n values
+        k = I.path.choose(3, 'unpack')
+        if k == 1:
+            raise Raised(VExc(TypeError, [VStr('cannot unpack non-iterable')]))
+        if k == 2:
+            raise Raised(VExc(ValueError, [VStr('unpack')]))
+        f = z3.Function('unpack_item', Val, z3.IntSort(), Val)
+        return [VAny(f(v.t, z3.IntVal(i))) for i in range(n)]
+    raise Unsupported('unpack %.100r' % (v,))
 
 
 # ---------------------------------------------------------------------------
